@@ -38,11 +38,17 @@ class FakeSocket:
             self.chunks.pop(0)
         return out
 
-    def recv(self, n):
+    def recv(self, n, flags=0):
+        import socket as _s
+        if flags & _s.MSG_PEEK:        # look without consuming (counts as a read: a peek loop at EOF is still a busy loop)
+            self.recv_calls += 1
+            if self.recv_calls > 100000:
+                raise RuntimeError("recv budget exceeded (busy loop)")
+            return self.chunks[0][:n] if self.chunks else b""
         return self._take(n)
 
-    def recv_into(self, view):
-        d = self._take(len(view))
+    def recv_into(self, view, nbytes=0, flags=0):
+        d = self._take(nbytes or len(view))
         view[:len(d)] = d
         return len(d)
 
